@@ -194,6 +194,10 @@ def truth(term, st):
         return None
     if k in ('tuple', 'list', 'set'):
         return bool(term[1])
+    if k == 'call' and term[1] in ('set', 'list', 'tuple', 'frozenset', 'sorted', 'BestSet') \
+            and len(term[2]) == 1 and not term[3]:
+        # a copy / conversion of a collection is empty exactly when the collection is
+        return truth(term[2][0], st)
     if k == 'cmp':
         op, l, r = term[1], term[2], term[3]
         if op in ('is', 'is not'):
@@ -308,7 +312,7 @@ class Frame:
 
 
 class LoopCtx:
-    __slots__ = ('kind', 'node', 'iter', 'elem', 'key', 'conds', 'target', 'base')
+    __slots__ = ('kind', 'node', 'iter', 'elem', 'key', 'conds', 'target', 'base', 'zero_iterations')
 
     def __init__(self, kind, node, it, elem, key, target=None):
         self.kind = kind
@@ -319,6 +323,7 @@ class LoopCtx:
         self.conds = []
         self.target = target
         self.base = None
+        self.zero_iterations = False
 
 
 class Analysis:
@@ -367,6 +372,11 @@ class Analysis:
         return st
 
     def on_return(self, ip, node, val, st, fr):
+        """the analysed function returns (after its finally blocks ran)"""
+        return st
+
+    def on_return_stmt(self, ip, node, val, st, fr):
+        """a `return` statement of the analysed function is executed"""
         return st
 
     def on_raise(self, ip, node, kind, st, fr):
@@ -392,6 +402,10 @@ class Analysis:
 
     def on_back_edge(self, ip, st):
         return st
+
+    def want_inline_gen(self, ip, func, fr):
+        """`yield from <package generator>`: walk the generator's body (delegation)"""
+        return True
 
     # classification of opaque awaits ------------------------------------
     def suspends(self, ip, term):
@@ -442,7 +456,15 @@ class Interp:
         if func.kwarg:
             st = st.with_var(fid, func.kwarg, (bindings or {}).get(func.kwarg, ('var', func.kwarg)))
         self.root = fr
-        return self.exec_block(func.node.body, [st], fr)
+        out = self.exec_block(func.node.body, [st], fr)
+        # the function really returns only once the enclosing `finally` blocks have run
+        final = []
+        for (x, t, node) in out.ret:
+            y = self.an.on_return(self, node, t, x, fr)
+            if y is not None:
+                final.append((y, t, node))
+        out.ret = final
+        return out
 
     def where(self, node, fr=None):
         f = (fr or self.root).func
@@ -656,7 +678,7 @@ class Interp:
         else:
             res = self.eval(s.value, st, fr, o)
         for x, t in res:
-            x = self.an.on_return(self, s, t, x, fr) if fr.depth == 0 else x
+            x = self.an.on_return_stmt(self, s, t, x, fr) if fr.depth == 0 else x
             if x is not None:
                 o.ret.append((x, t, s))
         return o
@@ -881,6 +903,8 @@ class Interp:
             for x, t in self.eval(s.test, cur, fr, o):
                 y = self.branch(s.test, t, False, x, fr)
                 if y is not None:
+                    y = self.an.on_loop_exit(self, ctx, y, fr)
+                if y is not None:
                     y = self.drop_loop_locals(s, y, fr)
                     if s.orelse:
                         r = self.exec_block(s.orelse, [y], fr)
@@ -900,7 +924,10 @@ class Interp:
                     self.loopctx.pop()
                 o.ret += r.ret
                 o.exc += r.exc
-                o.nxt += [self.drop_loop_locals(s, y, fr) for y in r.brk]
+                for y in r.brk:
+                    y = self.an.on_loop_exit(self, ctx, y, fr)
+                    if y is not None:
+                        o.nxt.append(self.drop_loop_locals(s, y, fr))
                 work += [self.an.on_back_edge(self, self.back_edge(st, cur, y)) or y for y in r.nxt + r.cont]
         o.nxt = dedup(o.nxt)
         return o
@@ -968,6 +995,10 @@ class Interp:
             if fr_out is not None:
                 o.absorb(fr_out, nxt=True)
                 continue
+            acc = self.try_fold_accumulate(s, it, x, fr)
+            if acc is not None:
+                o.nxt.append(acc)
+                continue
             self.iterate(s, it, x, fr, o)
         o.nxt = dedup(o.nxt)
         return o
@@ -1032,6 +1063,7 @@ class Interp:
             nonempty = truth(it, cur) if first else None
             sized = first and nonempty is None and _is_sized(it)
             if not (first and nonempty is True):
+                ctx.zero_iterations = first
                 y = self.an.on_loop_exit(self, ctx, cur.assume(it, False) if sized else cur, fr)
                 if y is not None:
                     y = self.stale_elem(y, elem, s, fr).forget(lambda t: t == elem)
@@ -1159,6 +1191,104 @@ class Interp:
         b = b.note(where, "fold: %s becomes %s for some element" % (f, sticky))
         return [x for x in (a, b) if x is not None]
 
+    def try_fold_accumulate(self, s, it, st, fr):
+        """collecting loops: `for x in S: [locals] if c(x): V.append(e(x))` -- summarised as
+        V = V + [e(x) for x in S if c(x)], the same term a comprehension would give"""
+        if s.orelse or not isinstance(s.target, ast.Name):
+            return None
+        adders = set()
+        counters = {}
+        for n in _walk_stmts(s.body):
+            if isinstance(n, ast.AugAssign) and isinstance(n.op, ast.Add) and isinstance(n.target, ast.Name) \
+                    and isinstance(n.value, ast.Constant) and n.value.value == 1 \
+                    and not isinstance(n.value.value, bool):
+                counters[n.target.id] = n
+                continue
+            if isinstance(n, (ast.Yield, ast.YieldFrom, ast.Return, ast.Raise, ast.Try, ast.With, ast.AsyncWith,
+                              ast.While, ast.For, ast.AsyncFor, ast.Break, ast.Await, ast.AugAssign)):
+                return None
+            if isinstance(n, ast.Assign) and not all(isinstance(t, ast.Name) for t in n.targets):
+                return None
+            if isinstance(n, ast.Call) and isinstance(n.func, ast.Attribute) and n.func.attr in ADDERS \
+                    and isinstance(n.func.value, ast.Name) and len(n.args) == 1:
+                adders.add(n.func.value.id)
+        if not adders and not counters:
+            return None
+        key = self.loop_key(s, fr)
+        elem = T.mk(('elem', it, key))
+        ctx = LoopCtx('for', s, it, elem, key, s.target)
+        b = st.forget(lambda t: t == elem)
+        scratch = Out()
+        bs = self.assign(s.target, elem, b, fr, scratch, s)
+        outs = []
+        counts = {}
+        for b in bs:
+            b = self.an.on_iter(self, ctx, b, fr)
+            if b is None:
+                return None
+            self.loopctx.append(ctx)
+            self.in_summary += 1
+            try:
+                r = self.exec_block(s.body, [b], fr)
+            finally:
+                self.in_summary -= 1
+                self.loopctx.pop()
+            if r.ret or r.exc or r.brk or scratch.exc:
+                return None
+            for x in r.nxt + r.cont:
+                if x.auto != b.auto:
+                    return None
+                outs.append(x)
+        if not outs:
+            return None
+        locs = self.loop_locals(s, fr)
+        comps = {}
+        for x in outs:
+            for k, v in x.vars.items():
+                if k[0] != fr.fid or v == st.vars.get(k):
+                    continue
+                name = k[1]
+                if name == s.target.id or name in locs:
+                    continue
+                old = st.vars.get(k)
+                if name in counters and old is not None:
+                    # `n += 1` under the conditions this path learnt about the element
+                    conds = tuple(sorted((c if val else T.mk(('unop', 'not', c)) for c, val in x.facts.items()
+                                          if st.facts.get(c) != val and T.contains(c, elem) and c != it), key=repr))
+                    counts.setdefault(name, set()).add(
+                        T.mk(('call', 'len', (('comp', 'list', elem, ((key, it, conds),)),), ())))
+                    continue
+                if name not in adders or old is None or v[0] != 'union':
+                    return None
+                new_items = T.union_items(v) - T.union_items(old)
+                if T.union_items(old) - T.union_items(v):
+                    return None
+                for item in new_items:
+                    conds = ()
+                    if item[0] == 'when':
+                        if item[2]:
+                            return None
+                        conds = tuple(sorted((c if val else T.mk(('unop', 'not', c)) for c, val in item[1]), key=repr))
+                        item = item[3]
+                    if item[0] != 'single':
+                        return None
+                    comps.setdefault(name, set()).add(T.mk(('comp', 'list', item[1], ((key, it, conds),))))
+        if not comps and not counts:
+            return None
+        y = self.drop_loop_locals(s, st, fr)
+        for name, cs in comps.items():
+            y = y.with_var(fr.fid, name, T.union(st.var(fr.fid, name), *cs))
+        for name, ls in counts.items():
+            if len(ls) != 1:
+                return None
+            new = self.aug('Add', st.var(fr.fid, name), tuple(ls)[0], name)
+            r2 = self.an.on_store_name(self, counters[name], name, new, y, fr)
+            if r2 is not None:
+                y = r2 if not isinstance(r2, list) else r2[0]
+            else:
+                y = y.with_var(fr.fid, name, new)
+        return y.note(self.where(s, fr), "fold: collecting loop summarised as a comprehension over %s" % T.show(it, 2))
+
     def try_fold_return(self, s, it, st, fr):
         """search loops: `for x in S: if p(x): return c` -- summarised as
         (return c, exists x: p) | (fall through, forall x: not p)"""
@@ -1218,7 +1348,7 @@ class Interp:
             if y is not None:
                 y = y.note(where, "fold: the search loop returns %s for some element" % T.show(t, 3))
                 if fr.depth == 0:
-                    y = self.an.on_return(self, node, t, y, fr)
+                    y = self.an.on_return_stmt(self, node, t, y, fr)
                 if y is not None:
                     out.ret.append((y, t, node))
         return out
@@ -1603,6 +1733,9 @@ class Interp:
             nxt = []
             for x, gens in cur:
                 for y, it in self.eval(g.iter, x, fr, o):
+                    if it[0] in ('gen', 'call') and self.an.iter_may_raise(self, it):
+                        o.exc.append((y.note(self.where(e, fr), "iterating %s raises" % T.show(it, 2)),
+                                      ('Raise', None, T.mk(('unk', 'iteration'))), e))
                     key = ('comp', g.iter.lineno, g.iter.col_offset, fr.fid)
                     elem = ('elem', it, key)
                     ctx = LoopCtx('comp', e, it, elem, key, g.target)
@@ -1680,6 +1813,13 @@ class Interp:
     def e_YieldFrom(self, e, st, fr, o):
         res = []
         for x, t in self.eval(e.value, st, fr, o):
+            if t[0] == 'gen':
+                f = self.prog.funcs.get(t[1])
+                if f is not None and fr.depth < self.an.max_inline and f.qualname not in fr.stack \
+                        and self.an.want_inline_gen(self, f, fr):
+                    for y, _ in self.inline(f, None, (), (), None, x, fr, o, e, bindings=t[2]):
+                        res.append((y, ('unk', 'yieldfrom')))
+                    continue
             y = self.an.on_yield(self, e, ('star', t), x, fr)
             if y is not None:
                 res.append((y, ('unk', 'yieldfrom')))
@@ -1697,10 +1837,24 @@ class Interp:
         return res
 
     def call(self, e, fterm, args, kws, st, fr, o):
+        if fterm[0] == 'ifexp':
+            # f = a if c else b ; f(x)  -- call whichever the path condition selects
+            res = []
+            for val, sub in ((True, fterm[2]), (False, fterm[3])):
+                y = self.branch(e, fterm[1], val, st, fr)
+                if y is not None:
+                    res += self.call(e, sub, args, kws, y, fr, o)
+            return res
         self.calls_seen += 1
         r = self.an.on_call(self, e, fterm, args, kws, st, fr)
         if r is not None:
             return self._split(r, o, e)
+        return self.call_generic(e, fterm, args, kws, st, fr, o)
+
+    def call_generic(self, e, fterm, args, kws, st, fr, o=None):
+        """what a call does when the analysis has nothing to say about it"""
+        if o is None:
+            o = Out()
         # local collection mutators
         if isinstance(e.func, ast.Attribute) and isinstance(e.func.value, ast.Name):
             nm = e.func.value.id
@@ -1717,6 +1871,11 @@ class Interp:
                     return [(st.with_var(fr.fid, nm, T.cap(('mutated', cur, m, args), nm)), ('unk', m))]
                 if m == 'copy' and not args:
                     return [(st, cur)]
+        if fterm[0] == 'attr' and fterm[2] == 'format' and fterm[1][0] == 'const' and isinstance(fterm[1][1], str) \
+                and not kws:
+            parts = _format_parts(fterm[1][1], args)
+            if parts is not None:
+                return [(st, T.cap(('fmt', parts), 'fmt'))]
         callee, recv, kind = self.resolve(fterm, fr, e)
         if kind == 'new':
             return [(st, ('new', callee, args, kws))]
@@ -2018,6 +2177,27 @@ def _is_sized(t):
     if t0 == 'call' and t[1] in ('list', 'set', 'tuple', 'BestSet', 'frozenset', 'sorted') and len(t[2]) == 1:
         return True
     return False
+
+
+def _format_parts(tpl, args):
+    """'a{}b{}'.format(x, y) -> ('a', x, 'b', y) as terms; None when the template is not a plain
+    auto-numbered one"""
+    import re
+    t = tpl.replace('{{', '\x00').replace('}}', '\x01')
+    pieces = re.split(r'(\{[^{}]*\})', t)
+    out = []
+    i = 0
+    for pc in pieces:
+        if pc.startswith('{') and pc.endswith('}'):
+            if pc != '{}' or i >= len(args):
+                return None
+            out.append(args[i])
+            i += 1
+        elif pc:
+            out.append(T.mk(('const', pc.replace('\x00', '{').replace('\x01', '}'))))
+    if i != len(args):
+        return None
+    return tuple(out)
 
 
 def _may_stop_early(loop):
